@@ -8,7 +8,8 @@ META = {
     'explanation': 'Wiring clauses only: (R01.1) eval is parse -> compile_ast -> run on fresh instances with every error propagated; '
                    '(R01.2) each operator lexeme denotes the documented operation along the whole chain lexer -> parser -> compiler -> VM '
                    '-> object layer (15-cell table, composed from extracted maps); (R01.3) operands reach the operation in source order on '
-                   'the generic and the fused path; (R01.4) the value of a program is the last popped expression-statement value.',
+                   'the generic and the fused path; (R01.4) the value of a program is the last popped expression-statement value.'
+                   ' (R01.5) expression statements end in Pop; (R01.6) every obligation of the compiler shape analysis and the control-flow graph of each if/loop/function arm hold (what C02, C09, C11, C12 check in detail); (R01.7) literals reach the program by value and the constant pool holds literal payloads as written; (R01.8) integer results pass the checked encoder.',
     'exhaustive': True,
     'not_decided': ['equality of results with a definitional evaluation for all programs (values of variables, output text, error position, '
                     'composition of features)'],
@@ -27,6 +28,28 @@ def run(ctx, rep):
     rep.rule('R01.5', 'an expression statement always ends in Pop, the instruction that records the value of a program / block')
     from rules import c11
     c11.check_stmt_expr_pop(csa_run.analyse(ctx), rep, 'R01.5')
+    rep.rule('R01.6', 'the code-generation scheme is well formed for every syntax-tree shape: each obligation of the compiler shape analysis (balanced '
+                      'operand stack, jump targets, scopes and slots, loop and function contexts) holds - a scheme that breaks one changes what some program means')
+    R = csa_run.analyse(ctx)
+    nv = 0
+    for v in R['violations']:
+        if v['oblig'] in ('R17.2',):
+            continue        # dirt left behind by a *failed* compilation concerns the next line of a session (C17), not this program
+        nv += 1
+        rep.bad('R01.6', 'compiler::Compiler::' + v['method'], '%s %s' % (v['oblig'], v['construct']), v['text'], 'src/compiler.rs', key='%s %s' % (v['oblig'], v['kc']))
+    arms = {(a['method'], a['trace']) for a in R['arms']}
+    bad_traces = {(v['method'], v['construct'].split(' :: ')[0]) for v in R['violations']}
+    rep.ob(True, 'R01.6', 'compiler::Compiler', 'scheme obligations', '%d arm paths of the compiler examined, %d without a finding' % (len(arms), len(arms - bad_traces)), 'src/compiler.rs')
+    rep.count('csa_arm_paths', len(arms))
+    # the control-flow graph of each if / loop / function arm (what C11 states in detail is a necessary part of `means the same`)
+    c11.check_cfg(ctx, rep, {r: 'R01.6' for r in ('R11.1', 'R11.2', 'R11.3', 'R11.5')}, pfx='cfg_')
+    rep.rule('R01.7', 'a literal denotes the value written, at every evaluation: what the constant pool holds reaches the program by value (types the VM mutates in place are copied)')
+    from rules import c10
+    c10.check_pool_by_value(ctx, rep, 'R01.7')
+    c10.check_literal_constants(ctx, rep, 'R01.7')
+    rep.rule('R01.8', 'a result outside the integer range is an error, not a wrapped value: integers are encoded only through the checked constructor or from range-checked values')
+    from rules import shared as _shared
+    _shared.check_int_encoder_range(ctx, rep, 'R01.8')
     check_pipeline(ctx, rep, 'R01.1')
     # ---- chain ---------------------------------------------------------------------------------
     lt = tables.lexer_table(ctx)['table']
